@@ -161,3 +161,26 @@ pub const FOREIGN: [char; 48] = ['#', '$', 'x', 'Z', '~', '\u{0}', 'é', 'λ', '
     '\u{2071}', '\u{2072}', '\u{2073}', '\u{207A}', '\u{207B}', '\u{207F}', '\u{2080}', '\u{2082}', '\u{2089}', '\u{00AA}', '\u{00BA}', '\u{02DA}',
     '\u{2307}', '\u{230C}', '\u{2320}', '\u{27E6}', '\u{3008}', '\u{03A0}', '\u{03D6}', '\u{1D70B}', '\u{FF11}', '\u{FF0B}', '\u{FF08}', '\u{FF09}',
     '\u{2212}', '\u{00D7}', '\u{00F7}', '\u{2215}', '\u{FF20}', '\u{FE6B}', '\u{2032}', '=', '\'', '"', '\\', '\u{7F}'];
+
+/// a parser event of the hook (`G<n>` / `T<Debug form of the token>`) in the specification's terms: ["G", n] / ["T", kind]
+pub fn abstract_event(v: &Vocab, ev: &str) -> serde_json::Value {
+    use serde_json::json;
+    if let Some(n) = ev.strip_prefix('G') { return json!(["G", n.parse::<u64>().unwrap_or(99)]); }
+    let t = ev.strip_prefix('T').unwrap_or(ev);
+    let kind: String = match t {
+        "Add" => "add".into(), "Subtract" => "sub".into(), "Multiply" => "mul".into(), "Divide" => "div".into(), "Caret" => "pow".into(),
+        "ExclamationMark" => "bang".into(), "Modulo" => "mod".into(), "LeftParen" => "lp".into(), "RightParen" => "rp".into(),
+        "LeftFloor" => "lf".into(), "RightFloor" => "rf".into(), "LeftCeiling" => "lc".into(), "RightCeiling" => "rc".into(),
+        "E" | "Pi" => "const".into(), "Comma" => "comma".into(), "DegToRad" => "deg".into(), "RadToDeg" => "rad".into(),
+        "Ampersand" => "and".into(), "Bar" => "or".into(), "LeftShift" => "shl".into(), "RightShift" => "shr".into(),
+        "Ans" => "ans".into(), "Eof" => "eof".into(),
+        x if x.starts_with("Superscript(") => "sup".into(),
+        x if x.starts_with("Num(") => "num".into(),
+        x if x.starts_with("ExplicitFunction(") => {
+            let f = &x["ExplicitFunction(".len()..x.len() - 1];
+            v.keywords.iter().find(|k| k.func == f).map(|k| k.cls.clone()).unwrap_or_else(|| format!("unknown-function:{}", f))
+        }
+        other => format!("unknown-token:{}", other),
+    };
+    json!(["T", kind])
+}
